@@ -127,7 +127,33 @@ VALIDITY = Stage(
     nontrivial=lambda e: True,
 )
 
+TEXT = Stage(
+    family="text",
+    mc={"quick": [("MC_Text.tla", "MC_Text.cfg", "pass")], "thorough": [("MC_Text.tla", "MC_Text_t.cfg", "pass")]},
+    parts={"quick": [("strings", 3), ("content", 1), ("sweep", 4)], "thorough": [("strings", 6), ("content", 2), ("sweep", 8)]},
+    trace=("Trace_Text.tla", "Trace_Text.cfg"),
+    nontrivial=lambda e: e.get("ev") not in ("SweepStart", "SweepEnd"),
+)
+
 CHECKS = {
+    "C05": dict(
+        stages=[TEXT],
+        technique="TLA+ definition of the codings as (repertoire, character -> units) (Text.tla, Gsm7.tla): TLC exhaustive on the "
+                  "codec state machine over scaled alphabets + TLC validation of recorded encode/decode calls octet for octet, "
+                  "interval-classified sweep of all scalar values",
+        level_text="TLC checks refusal exactly off the repertoire and inversion (with the two packed end-of-message ambiguities, "
+                   "exact outside them) for all strings of <=4 (thorough 6) characters over alphabets with one-unit, multi-unit "
+                   "and foreign characters for ASCII, UCS-2, GSM-7 unpacked and packed (decoder = the block unpacker without "
+                   "septet count).  Real codecs: random strings biased to each repertoire and its edges are validated octet for "
+                   "octet (ASCII, UCS-2, GSM-7) or by inversion/refusal (Latin-1, GB18030 with the U+E000..U+E864 carve-out); the "
+                   "three UTF-8->UCS-2 helpers; DecodeCMPPCContent/DecodeSMPPCContent for every data-coding number 0..255; "
+                   "every Unicode scalar value in the contexts c, ac, ca, acb through all six codecs as run-length classified "
+                   "intervals (quick: all of U+0000..U+30FF, plane and carve-out edges, every 17th elsewhere)",
+        level_note="Latin-1 (Windows-1252) and GB18030 byte values are x/text's and are only checked for inversion and refusal; in "
+                   "the sweep the per-scalar equality is computed in Go and TLC judges the interval classes against the repertoire",
+        rule="one event per Encode+Decode pair / helper call / content-decoder call / classified interval; distinct = distinct events",
+        assumptions=["x/text tables for Windows-1252 and GB18030", "TS 23.038 tables as transcribed in Gsm7.tla"],
+    ),
     "C19": dict(
         stages=[VALIDITY],
         technique="TLA+ denotation of SMPP time strings with a civil-calendar function (Validity.tla): TLC exhaustive over all "
